@@ -158,8 +158,10 @@ func (g *tmplGen) elem(cond string) *TNode {
 		if g.r.Chance(25) {
 			val += g.r.Pick([]string{"; ", ";", " ; "}) + "w := ${'W'}"
 		}
-		if g.r.Chance(3) {
-			val = g.r.Pick([]string{"v1 = ${1}", "${1}", "v1 := ${1} v2 := ${2}", "v1 :=", ""})
+		if g.r.Chance(5) {
+			val = g.r.Pick([]string{"v1 = ${1}", "${1}", "v1 := ${1} v2 := ${2}", "v1 :=", "",
+				"v1 := ${1}; ; w := ${2}", "${1} ${2}", "v1 := ${1} ${2}", " ; v1 := ${1}", "v1 := ${1};", "v1:=${1};v1:=${2}", ":= ${1}", "v1 := ${1};:= ${2}",
+				"v1 := ${1}${2}", "v1 := x${1}", "v1 := ${1} ; w", "  v1  :=  ${ 1 }  ;  w:=${v1+1}"})
 		}
 		attrs = append(attrs, TAttr{Name: g.ap + "with", Value: sp(g.q(val)), Ctl: true})
 		g.strVars = append(g.strVars, v)
